@@ -308,10 +308,22 @@ def view_uses(eng, f):
     """[(node, ptr param decl, need bytes, what)] raw reads through pointers derived from pointer parameters of f."""
     out = []
     outp = outptr_env(eng, f)
+    nodes = []
     for n in f.nodes():
+        # library calls that read n bytes behind a pointer without copying them (memcmp(a, b, n), memchr(p, c, n)): each pointer operand is
+        # a view of n bytes
+        if n.get("k") == "call" and callee_name(n) in ("memcmp", "std::memcmp", "bcmp", "memchr", "std::memchr") and len(n.get("args", [])) == 3:
+            ln = const_value(n["args"][2])
+            for a in (n["args"][:2] if "cmp" in callee_name(n) else n["args"][:1]):
+                nodes.append((n, a, ln if ln is not None else 1 << 30))
+        else:
+            nodes.append((n, None, None))
+    for n, rawptr, rawlen in nodes:
         k = n.get("k")
         ptr = None
-        if k == "call" and "obj" in n and n.get("arrow"):
+        if rawptr is not None:
+            ptr = rawptr
+        elif k == "call" and "obj" in n and n.get("arrow"):
             ptr = n["obj"]
         elif k == "member" and n.get("arrow") and n.get("dk") == "field":
             ptr = n["base"]
@@ -341,6 +353,8 @@ def view_uses(eng, f):
             if i is None:
                 continue
             size = (pt.get("psize") or 1) * (i + 1)
+        if rawptr is not None:
+            size = rawlen
         if size is None:
             continue
         if pr.off is None:
